@@ -31,6 +31,7 @@ func main() {
 		c.Family("segwit.grid", 17*(gridMaxLen+1)*c.N(1, 3), famSegwitGrid(c))
 		c.Exhaustive("witness version 0..16 x program length 0..42 x {bech32, bech32m} x {lower, upper, mixed case} x 11 networks (family segwit.grid)")
 		c.Family("addr.mutate", c.N(6000, 60000), famAddrMutate(c))
+		c.Family("addr.shadow", c.N(110, 1100), famAddrShadow(c))
 		c.Family("script.computepk", c.N(1500, 15000), famComputePkScript(c))
 		c.Family("wif", c.N(1100, 11000), famWIF(c))
 		c.Family("bip32", c.N(660, 6600), famBIP32(c))
@@ -46,6 +47,7 @@ func main() {
 		c.Require("addr.mutants", 20000)
 		c.Require("script.checks", 3000)
 		c.Require("segwit.grid.wrong-checksum-variant", 1000)
+		c.Require("addr.shadow.found", 10)
 		c.Require("script.computepk", 1000)
 		c.Require("wif.decode.accepted", 1000)
 		c.Require("wif.decode.rejected", 5000)
